@@ -88,7 +88,7 @@ func checkC17(c *Check) {
 		so := groupRep(body[is])
 		po := groupRep(body[ip])
 		tail := body[ip+1:]
-		c.Cond(un.OK && un.ContainsAllNonNL(), "name-admits-all", name, pos, "Username group is a repetition over every non-newline character", "the Username group rejects some client-chosen names (e.g. names with a space): such an attempt produces no record. Pattern `"+rv.Pattern+"`")
+		c.Cond(un.OK && un.Max < 0 && un.ContainsAllNonNL(), "name-admits-all", name, pos, "Username group is a repetition over every non-newline character", "the Username group rejects some client-chosen names (e.g. names with a space): such an attempt produces no record. Pattern `"+rv.Pattern+"`")
 		c.Cond(end, "end-anchored", name, pos, "pattern ends with end-of-text", "pattern is not anchored at the end: text after a forged ' from A port P' fragment inside the name is ignored and the forged address is recorded. Pattern `"+rv.Pattern+"`")
 		// start anchoring: ^ or dispatch prefix equal to the literal start
 		startOK := begin
